@@ -383,6 +383,14 @@ def classify_pipeline(job, res, coq):
             inner = [i["class_name"] for i in p.get("inner", [])]
             if len(set(inner)) != len(inner):
                 coq.ask("dupclasses", (res["id"], m["module"] + "::" + q), (conv, [i["name"] for i in p["inner"]], inner))
+                # inner classes that a later handler CREATED (DisambiguateChoices reference classes: local type, a single
+                # `value` extension attr) are named by next_available_name and must be fresh w.r.t. the existing ones
+                dup_names = {n for n in inner if inner.count(n) > 1}
+                created = [i["name"] for i in p["inner"] if i["class_name"] in dup_names and i.get("local_type")
+                           and [a["name"] for a in i["attrs"]] == ["value"] and i["attrs"][0].get("tag") == "Extension"]
+                if created:
+                    out.append(("dup-inner-class-created", f"{m['module']}.{q}: inner class(es) {created} created by a later handler are rendered "
+                                f"{sorted(dup_names)} like an existing inner class: {[i['name'] for i in p['inner']]} -> {inner}"))
             if set(inner) & set(fields):
                 out.append(("field-vs-inner-class", f"{m['module']}.{q}: inner classes {inner} / fields {fields}"))
     b = res.get("bind")
@@ -526,7 +534,8 @@ def resolve_pipeline(job, res, prelim, coq):
                 else:
                     out.append(("dup-class-single-location", what + "  (one source location: plain names have to be unique)"))
             elif "::" in k[1][1] and code in (1, 2):
-                out.append(("dup-inner-class", what + "  (inner classes are never renamed apart)"))
+                if not any(c == "dup-inner-class-created" for c, _ in out):
+                    out.append(("dup-inner-class", what + "  (inner classes are never renamed apart)"))
             elif code == 2:
                 out.append(("dup-class-safe-adjust", what))
             elif code == 1 and any(n.endswith("_abstract") for n in names):
@@ -558,6 +567,8 @@ def pipeline_oracle(ck: Check):
         ("xsd", {"s.xsd": W_XSD_F13}, {}), ("xsd", {"s.xsd": W_XSD_F16}, {}), ("xsd", {"s.xsd": W_XSD_F20}, {}),
         ("xsd", {"s.xsd": W_XSD_F14}, {"generic_collections": True}),
         ("xml", {"await0.xml": W_XML_F12}, {"wrapper_fields": True, "frozen": True, "slots": True}),
+        ("xsd", {"a.xsd": W_XSD_R4M1}, {"compound_fields": True}), ("xsd", {"a.xsd": W_XSD_R4M1}, {"compound_fields": True, "wrapper_fields": True}),
+        ("xsd", {"a.xsd": W_XSD_R4M2}, {}), ("xsd", {"a.xsd": W_XSD_R4M2}, {"structure_style": "clusters"}),
         ("xml", {"sample.xml": W_XML_NS}, {}), ("xml", {"sample.xml": W_XML_NS}, {"structure_style": "namespaces"}),
         ("xml", {"sample.xml": W_XML_NS}, {"structure_style": "namespace-clusters"}),
         ("xsd", {"s.xsd": W_XSD_F21}, {}), ("xsd", {"s.xsd": W_XSD_F22}, {"structure_style": "single-package"}),
@@ -631,6 +642,18 @@ W_XSD_F14 = _xsd(_ct("Sequence", ["x"]) + '<xs:complexType name="T"><xs:sequence
 
 
 W_XML_F12 = '<values><True ForwardRef="-١"><_1></_1><_1 values="" AB_a_b="A">mixed <_1><True True="\'"> </True></_1> tail</_1><_1><values>mixed <values></values> tail</values><_1 True="-.5" _1="class"> </_1><values> </values></_1><values><_1><_1></_1><True>2001-01-01</True></_1><True>true</True></values></True><True>2001-01-01</True></values>'
+W_XSD_R4M1 = _xsd('<xs:element name="root"><xs:complexType><xs:sequence><xs:element name="x-y"><xs:complexType><xs:sequence>'
+                  '<xs:element name="p" type="xs:string"/></xs:sequence></xs:complexType></xs:element><xs:choice maxOccurs="unbounded">'
+                  '<xs:element name="x_y" type="xs:int"/><xs:element name="z" type="xs:int"/></xs:choice></xs:sequence></xs:complexType></xs:element>')
+_ENUM = '<xs:simpleType name="%s"><xs:restriction base="xs:%s">%s</xs:restriction></xs:simpleType>'
+W_XSD_R4M2 = ('<xs:schema xmlns:xs="http://www.w3.org/2001/XMLSchema" targetNamespace="urn:a" xmlns:a="urn:a" elementFormDefault="qualified">'
+              + "".join(_ENUM % (n, b, "".join(f'<xs:enumeration value="{v}"/>' for v in vs)) for n, b, vs in (
+                  ("Rate", "decimal", ("1.5", "2.5")), ("Day", "date", ("2020-01-01", "2021-01-01")), ("Span", "duration", ("P1D", "PT1H")),
+                  ("Name", "QName", ("xs:int", "xs:string")), ("At", "dateTime", ("2020-01-01T00:00:00",)), ("T", "time", ("12:00:00",)),
+                  ("Y", "gYear", ("2020",))))
+              + '<xs:element name="root"><xs:complexType><xs:sequence><xs:element name="rate" type="a:Rate"/><xs:element name="day" type="a:Day" '
+              'minOccurs="0"/><xs:element name="span" type="a:Span"/><xs:element name="name" type="a:Name"/><xs:element name="at" type="a:At"/>'
+              '<xs:element name="t" type="a:T"/><xs:element name="y" type="a:Y"/></xs:sequence></xs:complexType></xs:element></xs:schema>')
 W_XML_NS = ('<a:root xmlns:a="urn:a" xmlns:b="urn:b"><a:item><a:x>1</a:x></a:item><b:item><b:y>text</b:y></b:item></a:root>')
 W_XSD_F21 = _xsd('<xs:complexType name="B"><xs:sequence><xs:element name="x" type="xs:string"/></xs:sequence></xs:complexType>'
                  '<xs:complexType name="D"><xs:complexContent><xs:extension base="B"><xs:attribute name="x" type="xs:string"/>'
